@@ -72,6 +72,17 @@ pub fn oracle_with(c: &FieldCase, obs: &mut Obs, judge_undetermined: bool) -> Ve
         obs.class("accepted");
         // whatever reading the parser chose, a repeated component may not come out with zero elements:
         // every k*Nx part of a documented format has at least one line (absent optional parts are null)
+        // documented value ranges of numeric sub-components hold whatever the reading: field 23 "Days (1-99)"
+        if c.ty == "Field23" {
+            if let Some(d) = v.json.get("days").and_then(|d| d.as_u64()) {
+                if d == 0 || d > 99 {
+                    out.push(viol(
+                        "C05|Field23|component-out-of-range|days".to_string(),
+                        format!("content {:?} accepted with days = {d} (documented: 1-99)", c.content),
+                    ));
+                }
+            }
+        }
         if !c.content.is_empty() {
             if let Some(key) = empty_component(&v.json, "") {
                 out.push(viol(
